@@ -5,13 +5,16 @@
  *        2 = normal mode with configuration (equipment present) — added with the simulated bus. */
 #include "../fw/explore.h"
 #include "../fw/hx.h"
+#include "../fw/simbus.h"
+#include "../fw/cfg.h"
 #include "include/bidib.h"
 #include <stdio.h>
 #include <stdlib.h>
 #include <string.h>
 
-enum { F_SHAPE, F_SWEEP, F_MULTI, F_FRAME, F_N };
-static const char *FNAME[F_N] = {"message-shapes", "field-sweeps", "multi-message", "framing-abuse"};
+enum { F_SHAPE, F_SWEEP, F_MULTI, F_FRAME, F_CONF, F_N };
+static const char *FNAME[F_N] = {"message-shapes", "field-sweeps", "multi-message", "framing-abuse", "configured-equipment"};
+#define CONF_PER 3421L      /* cases per (type, sender) of the configured-equipment family */
 static const int DLEN[18] = {0, 1, 2, 3, 4, 5, 6, 7, 8, 9, 10, 11, 12, 20, 40, 60, 100, 124};
 static const uint8_t FILL[3] = {0x00, 0xFF, 0x05};
 static const uint8_t SYM[7] = {0xFE, 0xFD, 0x00, 0x01, 0x03, 0x80, 0xFF};
@@ -23,6 +26,7 @@ static long fam_count(int fam) {
 	case F_SWEEP: return (g_thorough ? 256L : 128L) * 256 * 8;
 	case F_MULTI: return 5L * 5 * 5 + 5 * 5;
 	case F_FRAME: return 601L * 2 + 7 + 49 + 343 + 2401;
+	case F_CONF: return CONF_PER * 128 * 3;
 	}
 	return 0;
 }
@@ -81,6 +85,23 @@ static int gen_stream(int fam, long idx, uint8_t *out, char *human, size_t hn) {
 		}
 		return (int) rc_frame(out, m, (size_t) ml2, 1);
 	}
+	if (fam == F_CONF) {
+		/* well-formed messages FROM CONFIGURED NODES (mode 2: normal mode with the standard configuration), every uplink type:
+		 * (a) every data string of length 0..4 over an alphabet of values that name configured things (segment / accessory /
+		 *     port numbers, the bytes of the configured DCC addresses, orientation / flag bits, 0xFF),
+		 * (b) list-shaped payloads: a leading number followed by 1..3 two-byte entries from a set that contains the configured
+		 *     decoder addresses with both orientations, so that lists name the same decoder twice, known next to unknown, ... */
+		static const uint8_t A7[7] = {0x00, 0x01, 0x02, 0x03, 0x23, 0x81, 0xFF}; static const uint8_t B0[4] = {0, 1, 2, 0x10};
+		static const uint8_t P5[5][2] = {{0x23, 0x01}, {0x23, 0x81}, {0x02, 0x03}, {0x00, 0x00}, {0xFF, 0xFF}};
+		static const uint8_t NODE[3][4] = {{0, 0, 0, 0}, {1, 0, 0, 0}, {2, 0, 0, 0}};
+		long c = idx % CONF_PER; idx /= CONF_PER; int node = (int) (idx % 3); uint8_t type = (uint8_t) (0x80 + idx / 3);
+		uint8_t data[16]; int dl = 0;
+		if (c < 2801) { long base = 1; int len = 0; long r = c; while (r >= base) { r -= base; base *= 7; len++; } dl = len; for (int i = 0; i < len; i++) { data[i] = A7[r % 7]; r /= 7; } }
+		else { long r = c - 2801; data[0] = B0[r % 4]; r /= 4; int k = 1; long base = 5; while (r >= base) { r -= base; base *= 5; k++; } dl = 1 + 2 * k; for (int i = 0; i < k; i++) { data[1 + 2 * i] = P5[r % 5][0]; data[2 + 2 * i] = P5[r % 5][1]; r /= 5; } }
+		ml = rc_build_msg(m, NODE[node], 0, type, data, dl);
+		snprintf(human, hn, "type=%02x from node %d data=%s", type, node, hx_hex(data, (size_t) dl));
+		return (int) rc_frame(out, m, (size_t) ml, 1);
+	}
 	/* framing abuse */
 	if (idx < 1202) {
 		int k = (int) (idx / 2); uint8_t b = (idx & 1) ? 0x00 : 0x11; int o = 0; out[o++] = RC_MAGIC;
@@ -106,7 +127,8 @@ static void c12_child(const void *job, size_t n) {
 	vs_dev_t devs[VS_MAXDEV]; int nd; size_t pl; const uint8_t *p = job_parse(job, n, devs, &nd, &pl);
 	cjob_t j; memcpy(&j, p, sizeof j); g_thorough = p[sizeof j];
 	hx_child_begin(NULL, 0, 0, NULL, 0, 0);
-	if (hx_start_debug(0)) res_infra("start failed");
+	if (j.mode == 2) { cfg_install_std(); if (hx_start_normal(0)) res_infra("normal start failed"); hx_quiesce(); vs_sleep_us(2500000); hx_quiesce(); drain(); hx_emit_san_events("start-up"); }
+	else if (hx_start_debug(0)) res_infra("start failed");
 	hx_quiesce();
 	if (j.mode == 1) bidib_set_lowlevel_debug_mode(false);
 	{ uint8_t fe = RC_MAGIC; hx_feed(&fe, 1); }
@@ -116,7 +138,8 @@ static void c12_child(const void *job, size_t n) {
 	for (long c = j.start; c < (long) j.start + j.count && c < fam_count(j.fam); c++) {
 		res_progress(c);
 		int sl = gen_stream(j.fam, c, s, human, sizeof human);
-		char what[300]; snprintf(what, sizeof what, "mode=%s %s: %s", j.mode ? "normal-dispatch(no config)" : "debug", FNAME[j.fam], human);
+		char what[300]; snprintf(what, sizeof what, "mode=%s %s: %s", j.mode == 2 ? "normal(standard configuration)" : j.mode ? "normal-dispatch(no config)" : "debug", FNAME[j.fam], human);
+		hx_set_context(what);
 		env_push_quiet(s, (size_t) sl); vs_point(); hx_quiesce();
 		int corrupt = 0;
 		hx_emit_san_events(what); corrupt |= hx_san_last_was_write;
@@ -169,8 +192,12 @@ void c12_register(void) { harness_register("c12.rx", c12_child); }
 int c12_run(const char *tier) {
 	g_thorough = !strcmp(tier, "thorough");
 	njobs = 0;
-	for (int mode = 0; mode < 2; mode++) for (int fam = 0; fam < F_N; fam++)
+	for (int mode = 0; mode < 2; mode++) for (int fam = 0; fam < F_CONF; fam++)
 		for (long s = 0; s < fam_count(fam); s += C12_BATCH) add_job(mode, fam, s, C12_BATCH);
+	/* mode 2 (equipment present): field sweeps, and the configured-equipment family with one child per (type, sender) so that
+	 * a message that changes connectivity (node lost, table change) only affects its own batch */
+	for (long s = 0; s < fam_count(F_SWEEP); s += C12_BATCH) add_job(2, F_SWEEP, s, C12_BATCH);
+	for (long s = 0; s < fam_count(F_CONF); s += CONF_PER) add_job(2, F_CONF, s, CONF_PER);
 	long execs = 0, states = 0; int exhaustive = 1; long singles = 0;
 	round_base = 0;
 	for (int round = 0; round < 200 && round_base < njobs; round++) {
